@@ -91,6 +91,15 @@ theorem numY4_natDec_short (y : Nat) (h : y < 1000) : numY4 (natDec y) = none :=
     · rfl
     · rw [natDec, if_pos (by omega)]; rfl
 
+theorem pad4z_allDig (y : Nat) : (pad4z y).all isDig = true := by
+  simp only [pad4z, List.all_cons, List.all_nil, isDig_digit, Bool.and_self]
+
+theorem numY4_pad4z (y : Nat) (h : y ≤ 9999) : numY4 (pad4z y) = some y := by
+  simp only [pad4z, numY4, dv_digit]; congr 1; omega
+
+/-- from the year 1000 on the padded and the C library's rendering of the year coincide -/
+theorem pad4z_eq_natDec (y : Nat) (h1 : 1000 ≤ y) (h2 : y ≤ 9999) : pad4z y = natDec y := (Cw.natDec_4 y h1 h2).symm
+
 theorem numY2_pad2 (y : Nat) (h1 : 1969 ≤ y) (h2 : y ≤ 2068) : numY2 (pad2 (y % 100)) = some y := by
   have e : 10 * (y % 100 / 10 % 10) + y % 100 % 10 = y % 100 := by omega
   simp only [pad2, numY2, dv_digit, e]
@@ -156,6 +165,14 @@ theorem scan_second (is : List Item) (n : Nat) (h : n ≤ 59) (rest : Str) (f : 
 theorem scan_year4 (is : List Item) (y : Nat) (h1 : 1000 ≤ y) (h2 : y ≤ 9999) (rest : Str) (f : Fields) (hr : ∀ x ∈ rest.head?, isDig x = false) :
     scan (.year4 :: is) (natDec y ++ rest) f = scan is rest { f with year := y } := by
   simp only [scan, spanDig_append _ _ (natDec_allDig y) hr, numY4_natDec y h1 h2]
+
+theorem scan_year4_pad (is : List Item) (y : Nat) (h : y ≤ 9999) (rest : Str) (f : Fields) (hr : ∀ x ∈ rest.head?, isDig x = false) :
+    scan (.year4 :: is) (pad4z y ++ rest) f = scan is rest { f with year := y } := by
+  simp only [scan, spanDig_append _ _ (pad4z_allDig y) hr, numY4_pad4z y h]
+
+theorem scan_ws_pad4z (is : List Item) (n : Nat) (r : Str) (f : Fields) : scan (.ws :: is) (' ' :: (pad4z n ++ r)) f = scan is (pad4z n ++ r) f := by
+  simp only [pad4z, List.cons_append, List.nil_append]
+  exact scan_ws is _ _ f (isWs_digit _)
 
 theorem scan_year4_short (is : List Item) (y : Nat) (h : y < 1000) (rest : Str) (f : Fields) (hr : ∀ x ∈ rest.head?, isDig x = false) :
     scan (.year4 :: is) (natDec y ++ rest) f = none := by
